@@ -74,8 +74,9 @@ class LimitedTaskQueue:
                 released.append(itask)
                 n_active += 1
                 active.update({itask.tdef.name: 1})
-        for itask in held:
-            self.deque.appendleft(itask)
+        # Put skipped held tasks back where they were (at the head of the
+        # queue, in their original order) so they keep their place.
+        self.deque.extend(reversed(held))
         return released
 
     def remove(self, itask: 'TaskProxy') -> bool:
